@@ -534,5 +534,9 @@ pub fn run(ctx: &mut Ctx, o: &AttackOpts) {
                 go(ctx, &m3, false);
             }
         }
+        // the untouched presentation once more, AFTER everything this thread has verified and refused in this case: nothing
+        // a verifier saw before (digests recorded by a run that failed half-way, cached values) may change its decision
+        go(ctx, &m, true);
+        go(ctx, &m, false);
     }
 }
